@@ -1,4 +1,5 @@
 import RTA.Lemmas.RosNaive
+import RTA.Lemmas.ChainSound
 /-! # C07 — ROS 2 bounds equal exhaustive evaluation of their defining equations
 
 Model: `RTA/Model/Ros.lean`; naive evaluation: `RTA/Spec/NaiveRos.lean` — every offset up to
@@ -57,6 +58,25 @@ theorem polling_point_partial (s : Supply) (hs : s.WF) (a : Arr) (C : Nat) (inte
           interf.need (interferenceInterval (.rbf a (.scalar C)) A r)) limit
         (rosOffsets (.rbf a (.scalar C))) :=
   pollingPoint_eq_naive_on_steps s hs a C interf hwf hex hC hpos hwfi hexi limit hl
+
+/-- processing chain (partial): the chain analysis is the polling-point analysis of the last
+callback with the chain prefix and the other chains as interference, hence equal to naive
+evaluation over the step offsets of the chain's arrival curve -/
+theorem chain_partial (s : Supply) (hs : s.WF) (a : Arr) (C P : Nat) (others : RB)
+    (hwf : a.WF) (hex : a.Exact) (hC : 1 ≤ C) (hP : 1 ≤ P) (hpos : 0 < a.N 1)
+    (hwfo : others.ArrWF) (hexo : others.Exact) (limit : Nat) (hl : 1 ≤ limit) :
+    rosChain s (.rbf a (.scalar C)) (.rbf a (.scalar P)) (.rbf a (.scalar (C + P))) others limit =
+      naiveRosBoundOn s
+        (fun d => (RB.rbf a (.scalar C)).need d + (RB.agg [.rbf a (.scalar P), others]).need d)
+        (fun A r => (RB.rbf a (.scalar C)).need (A + 1) +
+          (RB.agg [.rbf a (.scalar P), others]).need (interferenceInterval (.rbf a (.scalar C)) A r)) limit
+        (rosOffsets (.rbf a (.scalar C))) := by
+  rw [Sched.rosChain_eq_pollingPoint s a C P hC others limit]
+  refine pollingPoint_eq_naive_on_steps s hs a C (.agg [.rbf a (.scalar P), others]) hwf hex hC hpos ?_ ?_ limit hl
+  · simp only [RB.ArrWF, RB.ArrWFList]
+    exact ⟨hwf, hwfo, trivial⟩
+  · simp only [RB.Exact, RB.ExactList]
+    exact ⟨⟨hex, Cost.scalar_strictPos P hP⟩, hexo, trivial⟩
 
 /-- the full claim for the timer analysis (all-offset evaluation) -/
 def TimerEqualsAllOffsets : Prop :=
